@@ -293,6 +293,19 @@ def rule_dispatch_scheduled(ctx: Ctx) -> None:
     def _mentions_next(e) -> bool:
         return any(isinstance(x, ast.Name) for x in ast.walk(e))
 
+    # the pass ends only because the queue's head is not due: every normal path from entry to exit crosses the false edge of a due test
+    # (an early return taken for any other reason leaves due jobs in the queue; after the last event nothing drains them)
+    seen_, stack_ = {g.entry}, [g.entry]
+    while stack_:
+        n_ = stack_.pop()
+        for (m_, lab_) in n_.succ:
+            if lab_ == "exc" or m_ in seen_ or (is_due_test(n_) and lab_ == "false"):
+                continue
+            seen_.add(m_)
+            stack_.append(m_)
+    ctx.check(g.exit not in seen_, "C13.3", "the scheduler pass returns only when the next job is not due", fn, fn.node,
+              "every exit path crosses 'next job is later than dt'", "_dispatch_scheduled can return without looking at the queue: a job scheduled "
+              "(by a handler) for a time at or before the clock stays queued, and after the last event it never runs", key_text="returns only when head not due")
     for p in pops:
         for pn in g.nodes_for(p):
             # every path to the pop goes through the *true* edge of a due test
